@@ -22,6 +22,12 @@ func runC13(c *Check) {
 	c.headerForOffset()
 	c.mappingHandOver()
 	c.nmLookupPure()
+	c.kernelSplitIsHalf()
+	// the answer read from addr2line / llvm-symbolizer belongs to the address just written:
+	// query and answer happen in one critical section of the pipe's mutex (shared with C20-R1)
+	c.relabel(c.guardedFields, "C20-R1", "C13-R9", func(o *Obligation) bool {
+		return strings.HasPrefix(o.Key, "guard:binutils.addr2Liner") || strings.HasPrefix(o.Key, "guard:binutils.llvmSymbolizer")
+	})
 }
 
 // ---- R7: the mapping's parameters are handed to the segment search and to the base
